@@ -9,14 +9,170 @@ def _c05_case(c):
     return {"raw": c}
 
 
+
+# ---------------------------------------------------------------------------
+# Thorough tier: a sample of the correspondence cases is re-evaluated INSIDE Coq with
+# vm_compute and compared with what the extracted OCaml runner printed (model.txt).
+# This cross-checks the extraction and the OCaml driver, not the implementation.
+
+_VM_ERR = {"OK": "None", "EOF": "Some EEof", "INJECTED": "Some EInjected", "UNEXPECTED_EOF": "Some EUnexpEof",
+           "BAD_DIGEST": "Some EBadDigest", "TRAILING": "Some ETrailing", "MISMATCH": "Some EMismatch",
+           "EARLY": "Some EEarly", "INVALID_SIZE": "Some EInvalidSize", "EXISTS": "Some EExists",
+           "TOO_BIG": "Some ETooBig", "NOT_FOUND": "Some ENotFound", "DUP_NAME": "Some EDupName", "FUEL": "Some EFuel"}
+
+_VM_PRELUDE = """From Oras Require Import Base.Prelude Generated.GC05 Model.Verify.
+Definition vm_fnv (s : str) : N := fold_left (fun h c => (N.lxor h c * 16777619) mod 4294967296) s 2166136261.
+Definition vm_djb (s : str) : N := fold_left (fun h c => (h * 31 + c + 7) mod 4294967296) s 5381.
+Definition vm_h (tbl : list (str * N * N * N * str)) (alg data : str) : str :=
+  match find (fun e => match e with (a, l, f, d, _) =>
+                 str_eqb a alg && (l =? N.of_nat (length data)) && (f =? vm_fnv data) && (d =? vm_djb data) end) tbl with
+  | Some (_, _, _, _, hx) => hx
+  | None => [63]
+  end.
+Definition vm_fuel (evs : list ev) : nat := S (S (S (ev_weight evs))).
+Definition vm_delivered (evs : list ev) (v : vrd) : nat := (length (stream evs) - length (stream (b_evs (v_base v))))%nat.
+"""
+
+
+def _vm_str(h):
+    if h == "-" or h == "":
+        return "(@nil N)"
+    return "[" + "; ".join(str(x) for x in bytes.fromhex(h)) + "]"
+
+
+def _vm_script(tok):
+    if tok == "-":
+        return "(@nil ev)"
+    out = []
+    for t in tok.split(","):
+        out.append("Zero" if t == "Z" else "Fail" if t == "F" else "Data %s" % _vm_str(t[1:]))
+    return "[" + "; ".join(out) + "]"
+
+
+def _vm_tbl(tok):
+    if tok == "-":
+        return "(@nil (str * N * N * N * str))"
+    out = []
+    for e in tok.split(","):
+        a, l, f, d, hx = e.split(":")
+        out.append("(%s, %s, %s, %s, %s)" % (_vm_str(a), l, f, d, _vm_str(hx)))
+    return "[" + "; ".join(out) + "]"
+
+
+def _vm_z(t):
+    return "(%d)%%Z" % int(t)
+
+
+def _vm_lim(t):
+    return "None" if t == "-" else "(Some %s)" % _vm_z(t)
+
+
+def _vm_bool(t):
+    return "true" if t == "1" else "false"
+
+
+def _vm_goal(case, out):
+    p = case.split(" ")
+    o = out.split(" ")
+    if p[0] == "RA":
+        _, hs, dg, sz, comb, lim, sc = p
+        call = "read_all (vm_h %s) %s true (vm_fuel evs) (mkBase evs %s) %s %s" % (_vm_tbl(hs), _vm_bool(comb), _vm_lim(lim), _vm_str(dg), _vm_z(sz))
+        if o[0] == "OK":
+            ln, fv = o[2].split(":")
+            return ("let evs := %s in let '((e, buf), v) := %s in (e, vm_delivered evs v, length buf, vm_fnv buf)\n  = (None, %s%%nat, %s%%nat, %s)"
+                    % (_vm_script(sc), call, o[1], ln, fv))
+        return "let evs := %s in let '((e, buf), v) := %s in (e, vm_delivered evs v) = (%s, %s%%nat)" % (_vm_script(sc), call, _VM_ERR[o[0]], o[1])
+    if p[0] == "CB":
+        _, hs, bufsz, dg, sz, comb, lim, sc = p
+        call = "copy_buffer (vm_h %s) %s true (vm_fuel evs) (mkBase evs %s) %s%%nat %s %s" % (_vm_tbl(hs), _vm_bool(comb), _vm_lim(lim), bufsz, _vm_str(dg), _vm_z(sz))
+        ln, fv = o[2][1:].split(":")
+        return ("let evs := %s in let '((e, out), v) := %s in (e, vm_delivered evs v, length out, vm_fnv out)\n  = (%s, %s%%nat, %s%%nat, %s)"
+                % (_vm_script(sc), call, _VM_ERR[o[0]], o[1], ln, fv))
+    if p[0] == "ST" and p[2] in ("mem", "oci"):
+        hs, kind, n = p[1], p[2], int(p[3])
+        f = p[4:]
+        lets, res = [], []
+        st = "(@nil (%s * str))" % ("desc" if kind == "mem" else "str")
+        for i in range(n):
+            name, mt, dg, sz, comb, sc = f[6 * i:6 * i + 6]
+            push = "mem_push" if kind == "mem" else "oci_push"
+            lets.append("let evs%d := %s in let '(e%d, s%d) := %s (vm_h tbl) %s true (vm_fuel evs%d) %s (mkDesc %s %s %s) (mkBase evs%d None) in"
+                        % (i, _vm_script(sc), i, i, push, _vm_bool(comb), i, st, _vm_str(mt), _vm_str(dg), _vm_z(sz), i))
+            st = "s%d" % i
+            res.append(_VM_ERR[o[3 * i]])
+        b = [t for t in o if t.startswith("B=")][0][2:]
+        cnt = 0 if b == "-" else b.count(";") + 1
+        return ("let tbl := %s in %s\n  ([%s], length %s) = ([%s], %d%%nat)"
+                % (_vm_tbl(hs), "\n  ".join(lets), "; ".join("e%d" % i for i in range(n)), st, "; ".join(res), cnt))
+    return None
+
+
+def _c05_vm_sample(d, tier, coq, build, want=240):
+    import os, subprocess, collections
+    if tier != "thorough":
+        return []
+    outs = {}
+    with open(os.path.join(d, "model.txt")) as f:
+        for l in f:
+            i, _, o = l.rstrip("\n").partition(" ")
+            outs[i] = o
+    quota = {"RA": 90, "CB": 90, "ST": 80}
+    total, got, stride = collections.Counter(), collections.Counter(), collections.Counter()
+
+    def eligible(c):
+        k = c.split(" ", 1)[0]
+        if k not in quota or len(c) > 2500:
+            return None
+        if k == "ST" and c.split(" ")[2] not in ("mem", "oci"):
+            return None
+        return k
+    with open(os.path.join(d, "cases.txt")) as f:
+        for l in f:
+            k = eligible(l.rstrip("\n").partition(" ")[2])
+            if k:
+                total[k] += 1
+    goals = []
+    with open(os.path.join(d, "cases.txt")) as f:
+        for l in f:
+            i, _, c = l.rstrip("\n").partition(" ")
+            k = eligible(c)
+            if not k or got[k] >= quota[k] or i not in outs:
+                continue
+            stride[k] += 1
+            if (stride[k] - 1) % max(1, total[k] // quota[k]) != 0:
+                continue
+            g = _vm_goal(c, outs[i])
+            if g:
+                got[k] += 1
+                goals.append((i, g))
+    vdir = os.path.join(build, "vm")
+    os.makedirs(vdir, exist_ok=True)
+    vf = os.path.join(vdir, "C05_cases.v")
+    with open(vf, "w") as f:
+        f.write(_VM_PRELUDE)
+        for i, g in goals:
+            f.write("\n(* %s *)\nGoal %s.\nProof. vm_compute. reflexivity. Qed.\n" % (i, g))
+    p = subprocess.run(["coqc", "-R", coq, "Oras", "-w", "-notation-overridden", vf], cwd=vdir, timeout=1500,
+                       stdout=subprocess.PIPE, stderr=subprocess.STDOUT, text=True)
+    with open(os.path.join(d, "vm_sample.txt"), "w") as f:
+        f.write("%d goals %s rc=%d\n%s" % (len(goals), dict(got), p.returncode, p.stdout[-3000:]))
+    if p.returncode != 0:
+        return ["vm_compute re-evaluation of %d sampled cases inside Coq disagrees with the extracted runner (or does not type-check): %s"
+                % (len(goals), p.stdout[-1200:])]
+    if len(goals) < want // 2:
+        return ["vm_compute sample too small: %d goals" % len(goals)]
+    return []
+
+
 CONFIG = {
     "properties_file": "Properties/C05.v",
-    "proof_files": ["Base/Prelude.v", "Proofs/Verify.v", "Proofs/VerifyComplete.v"],
+    "proof_files": ["Base/Prelude.v", "Proofs/Verify.v", "Proofs/VerifyComplete.v", "Proofs/VerifyProxy.v", "Proofs/VerifyFuel.v", "Proofs/VerifyConc.v"],
     "model_files": ["Generated/GC05.v", "Model/Verify.v"],
     "extract": "XC05.v",
     "ml_main": "c05_main.ml",
     "harness": "c05",
     "case_to_replay": _c05_case,
+    "post_model": _c05_vm_sample,
     "assumptions": [
         "the digest function is a parameter H : algorithm -> bytes -> encoded digest of every theorem, with NO assumption (no collision freedom is used); the correspondence supplies the SHA-2 values (crypto/sha256, crypto/sha512 of the Go standard library) to the extracted model as a table",
         "go-digest v1.0.0 Digest.Validate / Verifier (pinned dependency) hand-modelled: sha256/sha384/sha512 registered, lower-case hex of the exact length; Verified() = (digest == alg:hex(hash))",
@@ -24,11 +180,11 @@ CONFIG = {
         "os.File.ReadFrom falls back to io.Copy with a 32 KiB buffer for a *VerifyReader source (go1.26.8, linux); the theorems hold for every buffer size",
         "file system: os.CreateTemp names are unique, os.Rename is atomic and replaces the target (process runs as root, so a read-only target is replaced rather than refused); blobs/<alg>/<encoded> is injective in the digest string",
         "file.Store: only plain file names (no path traversal, no unpack annotation, non-manifest media types); two different names never resolve to the same path",
-        "concurrent pushes: the micro-step transition system of Model/Verify.v (cstep) is not tied to the code by trace correspondence; the concurrent oracle (goroutine races of good/bad pushes of one digest on oci/memory/limited stores with a concurrent observer) exercises the real code",
-        "cas.Proxy (caching wrapper): oracle only (the cache never holds content that does not match, FetchAll through the proxy accepts only matching bytes and reports trailing bytes, nothing blocks: 20 s watchdog); its pipe/goroutine plumbing is not modelled; its cache is a modelled LimitedStorage/Memory",
+        "concurrent pushes: the micro-step transition system of Model/Verify.v (cstep) is tied to the code by outcome membership: for races of 2-3 goroutines on one OCI layout the observed per-goroutine results + final blobs/ listing + ingest/ count must be one of the terminal outcomes of the exhaustive interleaving of the model (explore, proved to produce runs of the system only; Writes are explored unsplit because they touch only the thread's own ingest file -- this reduction is argued, not proved); individual file-system micro-steps are not observed (no syscall tracing); larger races and memory/limited stores are covered by the concurrent oracle only",
+        "cas.Proxy is modelled for a cas.Memory cache (NewProxy / NewProxyWithLimit), a caller that issues any sequence of Read sizes and then Close, StopCaching on/off; the io.Pipe is synchronous, which makes the session deterministic (a Write returns the prefix the push consumed + the push error, the drain loop after a successful push consumes the rest); a caller that never calls Close, Proxy over other cache implementations and Proxy.Exists are not modelled",
     ],
     "level_text": "Coq theorems for every reader behaviour (arbitrary chunking, 0-byte reads, error at any offset, data with EOF), every descriptor and every digest function: ReadAll / any use of VerifyReader / CopyBuffer (any buffer size) succeed only with exactly the descriptor's bytes and an exhausted reader; malformed or unsupported digest, negative size, short reader, wrong first-Size bytes and trailing bytes are always errors; Push on memory, limited, OCI and file stores stores exactly those bytes or leaves Exists/Fetch/blobs unchanged; after any push history everything visible matches; any interleaving of concurrent OCI pushes keeps every blob verified; pre-fix negative-size acceptance kept as a refuted witness. Model tied to the code by differential runs (scripted readers x descriptors x push histories on the real stores, listing blobs/ and ingest/) and an independent SHA-2 oracle incl. goroutine races and the caching proxy",
-    "level_note": "digest function abstract (no SHA-2 model); Go io helpers and go-digest validation hand-modelled (tied by correspondence, AST hashes of the mirrored functions recorded); write errors of the destination, path traversal/unpack in file.Store and the Proxy's pipe plumbing are not modelled; the concurrent transition system is validated only through the concurrent oracle",
+    "level_note": "digest function abstract (no SHA-2 model); Go io helpers and go-digest validation hand-modelled (tied by correspondence, AST hashes of the mirrored functions recorded); write errors of the destination and path traversal/unpack in file.Store are not modelled; cas.Proxy is modelled for memory caches and closing callers; the concurrent transition system is tied by outcome-set membership of small races (not by per-syscall traces)",
     "technique": "machine-checked proof in Coq (invariants of the VerifyReader state machine over all reader scripts, store invariants over all push histories, transition-system invariant over all interleavings) + translator-regenerated constants/AST anchors + model/implementation correspondence",
     "explanation": "theorems about an executable model of content/reader.go, internal/ioutil/io.go, cas.Memory, LimitedStorage, oci.Storage.Push and file.Store.push whose reader is an arbitrary script; the extracted model and the real code are run on the same generated scripts/descriptors/push histories and their results, Exists/FetchAll observations and directory listings are diffed; an independent oracle recomputes SHA-2 and checks the property statement directly (also under goroutine races and through the caching proxy)",
 }
